@@ -289,14 +289,30 @@ fn history(case: u64, args: &Args) {
         let ctx;
         let res = guarded(|| -> Result<String, ()> {
             if k < 45 {
-                // insert
-                let l = pick_len(&mut r);
+                // insert: a fresh region, or (k < 9) a handle that already exists - the very Arc the
+                // target map holds, or one removed from / rejected by some map earlier
                 let model = w.maps[mi].1.clone();
-                let s = pick_start(&mut r, &model, l);
-                let adj = adjacency(&model, s, l);
-                let (arc, reg) = match w.make_region(s, l) {
-                    Some(x) => x,
-                    None => return Err(()),
+                let mut existing: Option<(Arc<GuestRegionMmap<()>>, Reg, &'static str)> = None;
+                if k < 5 && !model.is_empty() {
+                    let reg = *r.pick(&model);
+                    if let Ok((_, a)) = w.maps[mi].0.remove_region(GuestAddress(reg.0), reg.1) {
+                        existing = Some((a, reg, "own-arc"));
+                    }
+                } else if k < 9 && !w.handles.is_empty() {
+                    let (a, reg) = r.pick(&w.handles).clone();
+                    existing = Some((a, reg, "held-handle"));
+                }
+                let (arc, reg, s, l, adj) = match existing {
+                    Some((a, reg, how)) => (a, reg, reg.0, reg.1, how),
+                    None => {
+                        let l = pick_len(&mut r);
+                        let s = pick_start(&mut r, &model, l);
+                        let adj = adjacency(&model, s, l);
+                        match w.make_region(s, l) {
+                            Some((a, reg)) => (a, reg, s, l, adj),
+                            None => return Err(()),
+                        }
+                    }
                 };
                 let overlaps = model.iter().any(|(rs, rl, _)| (s as u128) < *rs as u128 + *rl as u128 && (*rs as u128) < s as u128 + l as u128);
                 let got = w.maps[mi].0.insert_region(arc.clone());
